@@ -84,13 +84,14 @@ inline size_t size_mult(IntA a, IntB b){ return static_cast<size_t>(a) * static_
 /*!
  * \internal
  * \ingroup TasmanianUtils
- * \brief Copies an array into a vector, returns empty vector if the input is nullpntr.
+ * \brief Copies an array into a vector, returns empty vector if the input is nullpntr or the size is not positive.
  *
  * \endinternal
  */
 template<typename T, typename I>
 std::vector<typename std::remove_const<T>::type> copyArray(T* x, I size){
-    return (x == nullptr) ? std::vector<typename std::remove_const<T>::type>() :
+    // a non-positive size comes from an invalid user input (e.g., negative dimensions) that is rejected by the caller's checks
+    return (x == nullptr or size < 1) ? std::vector<typename std::remove_const<T>::type>() :
         std::vector<typename std::remove_const<T>::type>(x, x + static_cast<size_t>(size));
 }
 
